@@ -18,7 +18,8 @@ EXPLANATION = (
     "response, and the takeover PUT is dominated by the lease-expired edge; (R4) is_held returns True only on the read-back-equal "
     "edge, mismatch clears the flag, errors return False; acquire returns True only after _try_acquire() returned True; the "
     "local flag is set only after flock succeeded; (R5) flock mode never unlinks the lock file; the S3 release deletes only "
-    "under content == lock_id. The polling provider is documented best-effort and is not constrained.")
+    "under content == lock_id. The polling provider is documented best-effort and is not constrained."
+    " Also: taking over IS acquiring (the takeover's result is _try_acquire's result); the cached ETag only ever holds the ETag of our own PUT; is_held returns decided constants; LocalLockProvider never removes the lock file.")
 NOT_DECIDED = "kernel / S3 semantics, interleavings, numeric timeout bounds"
 
 
